@@ -1,4 +1,5 @@
-(** C14 proofs (draft): canonical encoding round trip *)
+(** Pickle/CodecProofs.v - C14: the canonical pickle encoding of every well-formed
+    payload is decoded by the restricted unpickler model to that payload. *)
 From Coq Require Import List ZArith NArith Bool Arith Lia.
 Import ListNotations.
 From DD Require Import Base.Sx Base.PyStr Base.Value Pickle.Vm Pickle.Codec Pickle.PickleProofs.
@@ -961,6 +962,20 @@ Proof.
   pose proof (pickle_roundtrip default_world d default_calls_ok (types_default_ok d Ht) Hw) as H.
   unfold load in H. destruct (vm_run default_world (enc_prog d)) as [out tr]. cbn in H.
   destruct out as [o|e]; [|discriminate]. exists o, tr. auto.
+Qed.
+
+(* passing safe_to_import (in any of its shapes) never stops Delta's own dumps from loading *)
+Definition with_allow (al : list pystr) (w : world) : world :=
+  mkWorld al (lookup w) (call_ok w) (build_ok w) (ext_cache0 w) (ext_registry w).
+
+Theorem own_dumps_load_any_safe : forall (a : safe_arg) d, wfp d = true -> types_default_b d = true ->
+  load (with_allow (effective_allow a) default_world) (enc_prog d) = Some d.
+Proof.
+  intros a d Hw Ht. apply pickle_roundtrip; [constructor; intros; reflexivity | | exact Hw].
+  intros m n Hin. pose proof (types_default_ok d Ht m n Hin) as H.
+  apply find_class_resolved in H. destruct H as [Ha Hl].
+  apply (proj2 (find_class_exact (with_allow (effective_allow a) default_world) m n) GType).
+  split; [|exact Hl]. cbn [allow with_allow]. apply effective_allow_spec. left. exact Ha.
 Qed.
 
 (* whatever a Delta does is a function of its payload (and constructor flags):
